@@ -1,5 +1,6 @@
 import Sentinel.Proto
 import Sentinel.World
+import Sentinel.BreakerSpec
 /-!
 Driver for the entry-level properties on the global slot chain (C01, C04, C05-isolation):
 correspondence of `World` with the implementation, and the Specs evaluated on the implementation's
@@ -78,14 +79,6 @@ structure SRule where
   W : Nat           -- window width
   priv : Bool
   since : Nat       -- admissions with sequence number ≥ since are visible to a private window
-  deriving Inhabited
-
-/-- Spec-level circuit breaker: the documented machine over the exact windowed counts of its completion history -/
-structure SBreaker where
-  rule : BRule
-  state : BState := .closed
-  deadline : Nat := 0
-  hist : List (Nat × Bool) := []        -- completions since the last reset: (time ms, counted as slow/error)
   deriving Inhabited
 
 structure SpecSt where
@@ -169,47 +162,7 @@ def specSysObs (sp : SpecSt) (t : Nat) : SysObs :=
     maxComplete := F64.mul (F64.div (F64.mul (F64.ofNat xb) (F64.ofNat 2)) (F64.ofNat 1000)) (F64.ofNat 1000),
     minRt := F64.ofNat (windowMinRt 500 evs lo hi) }
 
-/-! ### circuit-breaker Spec: the Closed / Open / Half-Open machine over exact windowed counts -/
-
-/-- counts of the completions whose bucket lies in the statistic window ending now -/
-def SBreaker.counts (b : SBreaker) (now : Nat) : Nat × Nat :=
-  let g := b.rule.geo
-  let hi := now - now % g.L
-  let lo := hi - b.rule.ivl + g.L
-  let inw := b.hist.filter (fun e => lo ≤ e.1 - e.1 % g.L && e.1 - e.1 % g.L ≤ hi)
-  ((inw.filter (·.2)).length, inw.length)
-
-/-- the breakers of a resource at an entry request: (breakers', refused?, notifications, probing breakers) -/
-def specBrEnter : List SBreaker → Nat → List SBreaker × Bool × List BEvent × List String
-  | [], _ => ([], false, [], [])
-  | b :: rest, now =>
-    match b.state with
-    | .closed =>
-      let (r', ref, ev, pr) := specBrEnter rest now
-      (b :: r', ref, ev, pr)
-    | .halfOpen => (b :: rest, true, [], [])
-    | .opn =>
-      if now ≥ b.deadline then
-        let (r', ref, ev, pr) := specBrEnter rest now
-        ({ b with state := .halfOpen } :: r', ref, ⟨.halfOpen, .opn, b.rule.id, "-"⟩ :: ev, b.rule.id :: pr)
-      else (b :: rest, true, [], [])
-
-/-- a completion (response time `rt`, error flag) observed at `now` -/
-def SBreaker.complete (b : SBreaker) (now rt : Nat) (err : Bool) : SBreaker × List BEvent :=
-  let hit := match b.rule.strategy with | .slowRatio => decide (rt > b.rule.maxRt) | _ => err
-  let b := { b with hist := (now, hit) :: b.hist }
-  let (target, total) := b.counts now
-  match b.state with
-  | .halfOpen =>
-    if hit then ({ b with state := .opn, deadline := now + b.rule.retryMs }, [⟨.opn, .halfOpen, b.rule.id, "1"⟩])
-    else ({ b with state := .closed, hist := [] }, [⟨.closed, .halfOpen, b.rule.id, "-"⟩])
-  | .closed =>
-    let (trip, snap) := match b.rule.strategy with
-      | .errorCount => (decide (total ≥ b.rule.minReq) && decide (target ≥ b.rule.thr.toNatFloor), toString target)
-      | _ => let ratio := F64.div (F64.ofNat target) (F64.ofNat total)
-             (decide (total ≥ b.rule.minReq) && !F64.lt ratio b.rule.thr, Breaker.snapStr ratio)
-    if trip then ({ b with state := .opn, deadline := now + b.rule.retryMs }, [⟨.opn, .closed, b.rule.id, snap⟩]) else (b, [])
-  | .opn => (b, [])
+/-! ### circuit-breaker Spec: `Sentinel/BreakerSpec.lean` (SBreaker.enter / complete / rollback, specBrEnter) -/
 
 /-! ### hotspot Spec: every parameter value has its own, isolated reference controller -/
 
